@@ -147,3 +147,18 @@ CHECKS["C14"] = {
          "shards": {"quick": 8, "thorough": 16}, "timeout": {"quick": 500, "thorough": 3400}},
     ],
 }
+
+CHECKS["C07"] = {
+    "level": "exploration",
+    "technique": "model-based stateful property testing (rapid state machine) over histories of {prepare cache, revoke other + update witness, prove with/without non-revocation and range statements, build proof list, issuance commitment on new/reused builders}, plus a concurrent variant; oracle = pairwise-uniqueness invariant over all implied commitment randomisers (response - c*secret, computed from the harness's knowledge of the secrets), randomised A, C_r/C_u and range commitments",
+    "level_text": "After every step of a generated history every value that must never repeat (implied randomisers of all hidden attributes, e, the secret key, issuance secret / v' / blind shares; A'; C_r, C_u; range commitments and responses) is compared with all earlier ones; the only allowed repeat is the shared secret-key randomiser inside one proof list. Equal implied randomisers are exactly the condition under which the two-transcript extractor recovers the secret. All proofs must also verify.",
+    "level_note": "Reads CredentialBuilder.secret/vPrime/mUser in-package. Chance repeats have probability < 2^-80. The concurrent variant samples schedules only.",
+    "rule": ("case = one history (sequence of actions on 1..3 credentials sharing a key and a pool of issuance builders). Non-trivial: histories with >= 2 proofs of which >= 1 consumed a prepared cache, and every concurrent run; "
+             "distinct by action sequence; the number of value pairs compared is reported in classes (pairs-compared)."),
+    "assumptions": ["ground truth of all secrets is known to the harness (it plays issuer and holder)"],
+    "units": [
+        {"pkg": "root", "run": "TestVF_C07", "rapid": {"quick": 120, "thorough": 1500}, "steps": {"quick": 12, "thorough": 16},
+         "shards": {"quick": 8, "thorough": 16}, "timeout": {"quick": 500, "thorough": 3400}},
+        {"pkg": "root", "run": "TestVF_C07_Concurrent", "shards": {"quick": 2, "thorough": 8}},
+    ],
+}
